@@ -36,8 +36,8 @@ def oracle(scn, obs, ref, schedule):
     spans = engine.call_spans(obs)
     tl = obs.timeline
     for kind, idx, res in engine.interruptions(obs):
-        if res != "no":
-            continue
+        if res != "no" or kind == "suspend-late":
+            continue  # (a request that lands when the plan is already over interrupts nothing)
         # the call this interruption belongs to
         span = next(((c, s, r) for c, s, r in spans if s is not None and s <= idx and (r is None or idx < r)), None)
         if span is None:
